@@ -20,6 +20,11 @@ pub fn cases(rng: &mut Rng, tier: &str) -> (Vec<Case>, bool) {
             // output that does not end in a newline; statements after the last newline-printing PRINT
             text.push_str("\n9990 PRINT \"TOTAL\";\n9991 X = 1");
         }
+        if i % 3 == 1 {
+            // text that runs to the end of its line: REM text, an open-quoted DATA item — with blanks at the end,
+            // indentation, CRLF-less tabs
+            text.push_str("\n9992 REM trailing blanks   \n9993 DATA \"NAME   \n9994 READ N$ : PRINT N$; \"|\"\n  9996 PRINT 1\t\n9997 DATA unquoted  ,  x  ");
+        }
         // A: load the file vs type its lines, in-process (implementation vs model, and against each other)
         let mut w = Walk::new(false, false);
         w.op(&format!("load {}", hexs(&text)));
